@@ -309,9 +309,6 @@ def roundtrip_concrete_item(item):
             else:
                 out["discharged"] += 3
     return out
-            else:
-                out["discharged"] += 3
-    return out
 
 
 def _rt_violation(n, mask, model, which):
